@@ -339,6 +339,6 @@ HARNESSES.append(
             stubs=["binary64 arithmetic (d / k, d -= k * n, 1000 * d, d % k) encoded as the IEEE-754 round-to-nearest error "
                    "enclosure over linear real/integer arithmetic (sound over-approximation); int() / round() exact on it",
                    "format archive = attribute bag"]))
-TIER_HARNESSES = {"quick": ["H14a", "H14b-n0", "H14b-n1", "H14b-n2", "H14b-n3", "H14c", "H14c-ms"],
-                  "thorough": ["H14a", "H14b-n0", "H14b-n1", "H14b-n2", "H14b-n3", "H14b-n4", "H14c", "H14c-ms"]}
+TIER_HARNESSES = {"quick": ["H14d", "H14a", "H14b-n0", "H14b-n1", "H14b-n2", "H14b-n3", "H14c", "H14c-ms"],
+                  "thorough": ["H14d", "H14a", "H14b-n0", "H14b-n1", "H14b-n2", "H14b-n3", "H14b-n4", "H14c", "H14c-ms"]}
 PROPERTY = "C14"
